@@ -10,7 +10,7 @@
      W.roots   roots of trust of the schema (one or several); W.covers  shape -> roots of trust it matches
      W.shape   name -> shape, for every name that occurs (also names of certificates that do not exist)
      W.certs   certificate name -> [key (public key it carries), kl (key locator name | "none"),
-               sig (key that made its signature | "forged" | "digest" | "hmac" | "unknownsig" | "hmacpub" | "digestkl" | "wrongtype"), serv (yes|nack|timeout|absent)]
+               sig (key that made its signature | "forged" | "replay" | "digest" | "hmac" | "unknownsig" | "hmacpub" | "digestkl" | "wrongtype"), serv (yes|nack|timeout|absent)]
      W.pkts    packet name -> [kl, sig]
      W.epoch   number of Heal steps so far (the set of retrievable certificates changes only there)
      W.sch, W.kt, W.q   labels for the executor (which LVS text / key type materialises the world) and witnesses
@@ -257,7 +257,7 @@ Verdict(v) ==
 \* labels the transitions with the action and its parameters
 NameUniverse == {"RA", "RB", "RAx", "RAf", "RAo", "ROp", "A1", "A1b", "A2", "A3", "X", "B1", "Z",
                  "R1", "R2", "R3", "R4", "R5", "R6", "C1", "C1b", "C2b", "C2", "C3", "C4", "C5", "C6", "C7", "C8",
-                 "P1", "P2", "P3", "P4", "P5", "P6", "P7", "P8", "P9", "P10"}
+                 "P1", "P1r", "A1r", "P2", "P3", "P4", "P5", "P6", "P7", "P8", "P9", "P10"}
 Env == \/ \E v \in Inst, a \in NameUniverse : NewValidator(v, a)
        \/ \E v \in Inst, p \in NameUniverse : Validate(v, p)
        \/ \E v \in Inst, kind \in {"yes", "nack", "timeout", "absent"} : FetchReply(v, kind)
@@ -307,6 +307,11 @@ Params(maxd) ==
   \cup {[sch |-> "peer", d |-> d, dev |-> "none", i |-> 0] : d \in 2..maxd}
   \* a second certificate A1b of the leaf key's NAME (other issuer/version), forged or not retrievable; P2 names it
   \cup (IF maxd >= 2 THEN {[sch |-> "strict", d |-> 2, dev |-> x, i |-> 1] : x \in {"twinforged", "twinabsent"}} ELSE {})
+  \* a forgery that re-uses the SignatureValue of a genuine element over other signed bytes:
+  \* "replaypkt": packet P1r (other name and content) carries the signature value of P1;
+  \* "replaycert": certificate A1r (other name, the forger's key kO) carries the signature value of A1, P2 is signed by kO
+  \* and names A1r. Both must be rejected - also after the genuine element was validated by the same or another instance.
+  \cup (IF maxd >= 2 THEN {[sch |-> "strict", d |-> 2, dev |-> x, i |-> 1] : x \in {"replaypkt", "replaycert"}} ELSE {})
 
 MCWorld(q) ==
   LET d == q.d
@@ -349,6 +354,9 @@ MCWorld(q) ==
                   THEN [n \in {"A1b"} |-> [key |-> "kA1", kl |-> "RA", sig |-> IF q.dev = "twinforged" THEN "forged" ELSE "kRA",
                                            serv |-> IF q.dev = "twinabsent" THEN "absent" ELSE "yes"]]
                   ELSE [n \in {} |-> 0]
+      replayCert == IF q.dev = "replaycert"
+                    THEN [n \in {"A1r"} |-> [key |-> "kO", kl |-> "RA", sig |-> "replay", serv |-> "yes"]]
+                    ELSE [n \in {} |-> 0]
       \* schema "two": a second, separate root of trust #oproot (no name matches both roots);
       \* schema "twin": a second root rule #root2 that every root-shaped name matches as well
       opCert == IF q.sch = "two" THEN [n \in {"ROp"} |-> [key |-> "kRA", kl |-> "ROp", sig |-> "kRA", serv |-> "absent"]]
@@ -360,22 +368,28 @@ MCWorld(q) ==
       covers |-> [sh \in {"root", "oproot"} |-> IF sh = "oproot" THEN {"oproot"}
                                                 ELSE IF q.sch = "twin" THEN {"root", "root2"} ELSE {"root"}],
       twin |-> IF twinDev THEN [n \in {"A1b"} |-> "A1"] ELSE [n \in {} |-> ""],
+      replay |-> IF q.dev = "replaypkt" THEN [n \in {"P1r"} |-> "P1"]
+                 ELSE IF q.dev = "replaycert" THEN [n \in {"A1r"} |-> "A1"] ELSE [n \in {} |-> ""],
       kt |-> "ec",
       epoch |-> 0,
       sch |-> q.sch,
       q |-> q,
-      shape |-> [n \in {"RA", "RB", "RAf", "RAo", "RAx", "ROp", "X", "A1", "A1b", "A2", "A3", "B1", "P1", "P2", "P3", "none"} |->
+      shape |-> [n \in {"RA", "RB", "RAf", "RAo", "RAx", "ROp", "X", "A1", "A1b", "A1r", "A2", "A3", "B1", "P1", "P1r", "P2", "P3", "none"} |->
                    IF n \in {"RA", "RB", "RAf", "RAo"} THEN "root"
                    ELSE IF n = "ROp" THEN (IF q.sch = "two" THEN "oproot" ELSE "nil")
                    ELSE IF n = "A1b" THEN (IF twinDev THEN "c1" ELSE "nil")
+                   ELSE IF n = "A1r" THEN (IF q.dev = "replaycert" THEN "c1" ELSE "nil")
+                   ELSE IF n = "P1r" THEN (IF q.dev = "replaypkt" THEN pshape ELSE "nil")
                    ELSE IF n \in {"RAx", "X"} THEN "x"
                    ELSE IF n = "A1" THEN "c1" ELSE IF n = "A2" THEN (IF peer THEN "c1" ELSE "c2")
                    ELSE IF n = "A3" THEN (IF peer THEN "c1" ELSE "c3")
                    ELSE IF n = "B1" THEN "c1" ELSE IF n = "P3" THEN "d2"
                    ELSE IF n \in {"P1", "P2"} THEN pshape ELSE "nil"],
-      certs |-> chainCerts @@ xCert @@ anchors @@ bCert @@ twinCert @@ opCert,
-      pkts |-> [n \in {"P1", "P2", "P3"} |->
-                  IF n = "P1" THEN [kl |-> klOf("P1", leafName), sig |-> sigOf("P1", leafKey)]
+      certs |-> chainCerts @@ xCert @@ anchors @@ bCert @@ twinCert @@ opCert @@ replayCert,
+      pkts |-> [n \in (IF q.dev = "replaypkt" THEN {"P1", "P1r", "P2", "P3"} ELSE {"P1", "P2", "P3"}) |->
+                  IF n = "P1r" THEN [kl |-> leafName, sig |-> "replay"]
+                  ELSE IF n = "P2" /\ q.dev = "replaycert" THEN [kl |-> "A1r", sig |-> "kO"]
+                  ELSE IF n = "P1" THEN [kl |-> klOf("P1", leafName), sig |-> sigOf("P1", leafKey)]
                   ELSE IF n = "P2" THEN [kl |-> IF twinDev THEN "A1b" ELSE leafName, sig |-> leafKey]
                   ELSE [kl |-> "B1", sig |-> "kB1"]]]
 
@@ -396,7 +410,7 @@ WOrd == {MCWorld(q) : q \in {[sch |-> "strict", d |-> 2, dev |-> "none", i |-> 0
 WEd == {[MCWorld(q) EXCEPT !.kt = "ed"] : q \in {[sch |-> "strict", d |-> 2, dev |-> "none", i |-> 0],
                                                  [sch |-> "strict", d |-> 2, dev |-> "forged", i |-> 1]}}
 \* schemas with two roots of trust: an anchor that matches only one of them must be refused
-WTwin == {MCWorld([sch |-> "strict", d |-> 2, dev |-> x, i |-> 1]) : x \in {"twinforged", "twinabsent"}}
+WTwin == {MCWorld([sch |-> "strict", d |-> 2, dev |-> x, i |-> 1]) : x \in {"twinforged", "twinabsent", "replaypkt", "replaycert"}}
 W2R == {MCWorld([sch |-> s, d |-> 2, dev |-> "none", i |-> 0]) : s \in {"two", "twin"}}
 MCAnchors2(v) == IF v = "v1" THEN {"RA", "ROp", "RAx", "RAf"} ELSE {"RB"}
 MCAnchors(v) == IF v = "v1" THEN {"RA", "RAx", "RAf", "RAo"} ELSE {"RB", "RA"}
